@@ -408,8 +408,17 @@ def check_bookkeeping(run: Run) -> None:
             counters = [s.target.id for s in blk if isinstance(s, ast.AugAssign) and isinstance(s.target, ast.Name) and s.target.id not in ("pos", "column") and isinstance(s.op, ast.Add) and _text(s.value) == val]
             via_counter = [c for c in counters if any(isinstance(s, ast.AugAssign) and isinstance(s.target, ast.Name) and s.target.id == "column" and _text(s.value) == c for s in walk_no_nested(fn))]
             newline_case = any(isinstance(s, ast.Expr) and "TokenType.NEWLINE" in _text(s) for s in blk)
-            ok = bool(same) or bool(via_counter) or newline_case
-            why = "column += same amount" if same else (f"counter `{via_counter[0]}` later added to column" if via_counter else ("consumes the newline after a fence (line/column already set for the next line)" if newline_case else "NO matching column update"))
+            # delta form: `S = pos` before the run, `column += pos - S` (directly or through a local) after it
+            delta = False
+            starts = [a.targets[0].id for a in walk_no_nested(fn) if isinstance(a, ast.Assign) and len(a.targets) == 1 and isinstance(a.targets[0], ast.Name) and isinstance(a.value, ast.Name) and a.value.id == "pos"]
+            for S in starts:
+                dl = {a.targets[0].id for a in walk_no_nested(fn) if isinstance(a, ast.Assign) and len(a.targets) == 1 and isinstance(a.targets[0], ast.Name) and _text(a.value) == f"pos - {S}"}
+                if any(isinstance(s_, ast.AugAssign) and isinstance(s_.target, ast.Name) and s_.target.id == "column" and isinstance(s_.op, ast.Add) and (_text(s_.value) == f"pos - {S}" or (isinstance(s_.value, ast.Name) and s_.value.id in dl)) for s_ in walk_no_nested(fn)):
+                    par_loop = getattr(u, "_parent", None)
+                    if isinstance(par_loop, ast.While) and val == "1":
+                        delta = True
+            ok = bool(same) or bool(via_counter) or newline_case or delta
+            why = "column += (pos - <saved start>) after the run" if (delta and not same and not via_counter) else "column += same amount" if same else (f"counter `{via_counter[0]}` later added to column" if via_counter else ("consumes the newline after a fence (line/column already set for the next line)" if newline_case else "NO matching column update"))
             run.instance("R07.1b", where, f"pos += {val}: {why}", ok=ok)
             if not ok:
                 run.violation("R07.1b", lx, "tokenize", f"pos += {val} without column update", f"`pos += {val}` is not accompanied by `column += {val}` in the same block: every later token on the line - and every receipt that copies its position - is stamped with a wrong column")
